@@ -90,9 +90,9 @@ class Ctx:
         return random.Random(int(step.get("rs", 0)) * 1000003 + salt)
 
     # -- logging ---------------------------------------------------------
-    def log(self, op, outcome, **kw):
+    def log(self, op, outcome, _sig=None, **kw):
         self.events.append(json.dumps([self.step_i, op, outcome, canon(kw)], sort_keys=True))
-        self.sig.append(f"{op}:{outcome}")
+        self.sig.append(f"{op}:{outcome}" if _sig is None else f"{op}:{outcome}:{_sig}")
 
     def probe(self, name, n=1):
         self.probes[name] += n
